@@ -16,6 +16,7 @@ def dispatch (line : String) : String :=
     match tag with
     | "c14" => c14 args
     | "conn" => connWith fullWrap args
+    | "connq" => connWith fullWrap args false
     | "raw" => rawWith fullWrap args
     | "clean" => cleanOp args
     | "viso" => visoOp args
